@@ -21,7 +21,7 @@ Ends == {meta.start} \cup {Units[u].e : u \in 1..N}
 \* every unit ending at or before offset o has been committed
 CoveredUpTo(o, app) == \A u \in 1..N : Units[u].e <= o => app[u] >= 1
 
-Init == /\ l = 1 /\ meta = [id |-> 0, mode |-> "sync", start |-> 0, units |-> <<>>, cluster |-> FALSE] /\ conns = <<>>
+Init == /\ l = 1 /\ meta = [id |-> 0, mode |-> "sync", start |-> 0, units |-> <<>>, cluster |-> FALSE, filter |-> FALSE] /\ conns = <<>>
         /\ applied = <<>> /\ lastResume = -1 /\ crashes = 0
 IsEvent(e) == l <= Len(Trace) /\ Trace[l].ev = e /\ l' = l + 1
 Report(bad) == IF bad = {} THEN TRUE ELSE PrintT(<<"VIOL", meta.id, l, bad>>)
@@ -39,6 +39,9 @@ BlockBad(q, inExec, app) ==
       whole(u) == u >= 1 /\ u <= N /\ \A ci \in 1..Units[u].n : \E i \in biz : q[i].u = u /\ q[i].ci = ci
       recFor(u) == \E i \in recs : q[i].off = Units[u].e
   IN (IF \E i \in biz : q[i].u = 0 THEN {"C13_UnknownBusinessCommand"} ELSE {})
+     \* C10: with a key filter configured the units hold the commands restricted to their accepted keys; anything else
+     \* that arrives is not the projection the filter owes the target
+     \cup (IF meta.filter /\ \E i \in biz : q[i].u = 0 THEN {"C10_ForwardedOtherThanProjection"} ELSE {})
      \cup (IF biz # {} /\ ~inExec THEN {"C14_BusinessOutsideTransaction"} ELSE {})
      \cup (IF \E u \in us : u >= 1 /\ ~whole(u) THEN {"C14_UnitSplit"} ELSE {})
      \cup (IF Cardinality(us) > 1 THEN {"C14_TwoUnitsInOneTransaction"} ELSE {})
@@ -112,7 +115,8 @@ Return ==
 
 Quiesce ==
   /\ IsEvent("Quiesce")
-  /\ Report(IF AllOk /\ \E u \in 1..N : applied[u] = 0 THEN {"C14_UnitNeverCommitted"} ELSE {})
+  /\ Report((IF AllOk /\ \E u \in 1..N : applied[u] = 0 THEN {"C14_UnitNeverCommitted"} ELSE {})
+            \cup (IF meta.filter /\ AllOk /\ \E u \in 1..N : applied[u] = 0 THEN {"C10_WithheldAcceptedCommand"} ELSE {}))
   /\ UNCHANGED <<meta, conns, applied, lastResume, crashes>>
 
 Next == Reset \/ Req \/ Crash \/ Resume \/ Quiesce \/ Return
